@@ -107,6 +107,16 @@ MUTANTS = [
     m('C04', 'revert_F3_lipschitz_grouping', (INF, "            for cl in sorted(self.model.cliques, key=self.model.domain.size):\n                if set(proj) <= set(cl):\n                    n = self.domain.size(cl)", "            for cl in self.model.cliques:\n                if set(proj) <= set(cl):\n                    n = self.domain.size(cl)")),
     m('C04', 'linop_not_transposed', (INF, "                    loss += 0.5*(diff @ diff)\n                    grad = c*(Q.T @ diff)", "                    loss += 0.5*(diff @ diff)\n                    grad = c*(Q.T @ diff) if not isinstance(Q, LinearOperator) else c*(Q.T @ np.abs(diff))")),
     m('C04', 'str_proj_split', (INF, "            if type(proj) is not tuple:\n                proj = (proj,)", "            if type(proj) is not tuple:\n                proj = tuple(proj)")),
+    # ---- C09 ------------------------------------------------------------
+    m('C09', 'revert_F5_inference', (INF, "                v = lsmr(Q.T, o, atol=0, btol=0, maxiter=10*max(Q.shape))[0]", "                v = lsmr(Q.T, o, atol=0, btol=0)[0]")),
+    m('C09', 'revert_F5_public', (PI, "        v = lsmr(Q.T, o, atol=0, btol=0, maxiter=10*max(Q.shape))[0]", "        v = lsmr(Q.T, o, atol=0, btol=0)[0]")),
+    m('C09', 'variance_without_vnorm', (INF, "                    variances = np.append(variances, noise**2 * np.dot(v, v))", "                    variances = np.append(variances, noise**2)")),
+    m('C09', 'plain_mean', (INF, "                estimate = variance * np.sum(estimates / variances)\n                total = max(1, estimate)", "                estimate = np.mean(estimates)\n                total = max(1, estimate)")),
+    m('C09', 'floor_dropped', (LI, "                total = max(1, estimate)", "                total = estimate")),
+    m('C09', 'membership_test_removed', (INF, "                if np.allclose(Q.T.dot(v), o):\n                    variances", "                if True:\n                    variances")),
+    m('C09', 'supplied_total_overridden_when_small', (INF, "        if total is None:\n            # find the minimum variance estimate", "        if total is None or total < 2:\n            # find the minimum variance estimate")),
+    m('C09', 'public_total_not_applied', (PI, "    logP = np.log(x0+np.nextafter(0,1)) + np.log(total) - np.log(x0.sum())", "    logP = np.log(x0+np.nextafter(0,1)) - np.log(x0.sum())")),
+    m('C09', 'variance_uses_sd', (LI, "                    variances = np.append(variances, noise**2 * np.dot(v, v))", "                    variances = np.append(variances, noise * np.dot(v, v))")),
 ]
 
 
